@@ -38,6 +38,7 @@ fn concretise(c: &Value, rng: &mut Rng) -> Opts {
 			"nonprintable-at" => Some("a@b".to_string()),
 			"nonascii" => Some("Br\u{e9}sil".to_string()),
 			"empty" => Some(String::new()),
+			"odd-ia5" => Some("U$".to_string()),
 			"padded" => Some("  padded name  ".to_string()),
 			"nbsp-padded" => Some("\u{a0}name\u{a0}".to_string()),
 			"tab-newline-padded" => Some("\tname\n".to_string()),
@@ -55,6 +56,7 @@ fn concretise(c: &Value, rng: &mut Rng) -> Opts {
 			"dns" => (format!("{}.example.test", random_text("printable", rng, 6).replace(|c: char| !c.is_ascii_alphanumeric(), "x")), None),
 			"dns-trailing-dot" => ("host.example.test.".to_string(), None),
 			"at-sign" => ("user@host.example.test".to_string(), None),
+			"odd-ia5" => ("U$".to_string(), None),
 			"ip4" => {
 				let b = rng.bytes(4);
 				(format!("{}.{}.{}.{}", b[0], b[1], b[2], b[3]), Some(b))
